@@ -1107,10 +1107,12 @@ impl<'a, 'b, 'ast> Visit<'ast> for BodyV<'a, 'b> {
             return;
         }
         if name == "matches" {
-            // matches!(EXPR, PAT [if GUARD]): visit EXPR and GUARD
+            // R24: matches!(EXPR, PAT [if GUARD]) -> (match EXPR { PAT [if GUARD] => true, _ => false })
+            // (the macro's definition, written out so that woven ghost arguments inside EXPR / GUARD
+            // are seen by the verus! macro)
             let parsed = mac.parse_body_with(|input: syn::parse::ParseStream| {
                 let e: Expr = input.parse()?;
-                let _c: Token![,] = input.parse()?;
+                let c: Token![,] = input.parse()?;
                 let _p = Pat::parse_multi_with_leading_vert(input)?;
                 let g = if input.peek(Token![if]) {
                     let _i: Token![if] = input.parse()?;
@@ -1118,10 +1120,21 @@ impl<'a, 'b, 'ast> Visit<'ast> for BodyV<'a, 'b> {
                 } else {
                     None
                 };
-                let _ = input.parse::<Option<Token![,]>>()?;
-                Ok((e, g))
+                let t = input.parse::<Option<Token![,]>>()?;
+                Ok((e, c, g, t))
             });
-            if let Ok((e, g)) = parsed {
+            if let Ok((e, c, g, t)) = parsed {
+                let er = range_of(&e);
+                let cr = br(c.span);
+                let close = match &mac.delimiter {
+                    MacroDelimiter::Paren(p) => br(p.span.close()),
+                    MacroDelimiter::Brace(p) => br(p.span.close()),
+                    MacroDelimiter::Bracket(p) => br(p.span.close()),
+                };
+                let tail_start = t.map(|t| br(t.span).0).unwrap_or(close.0);
+                self.fc.edit(whole.0, er.0, "(match ", "R24.matches");
+                self.fc.edit(er.1, cr.1, " {", "R24.matches");
+                self.fc.edit(tail_start, whole.1, " => true, _ => false })", "R24.matches");
                 self.visit_expr(&e);
                 if let Some(g) = g {
                     self.visit_expr(&g);
